@@ -6,22 +6,22 @@ from vlib import ToolError, Result, log
 
 # driver lists per property (the drivers scale with the tier themselves)
 PLAN = {
-    "C01": {"models": ["pipeline"], "drivers": ["small", "adversarial", "char-classes"], "thorough_drivers": ["icase-sweep"]},
+    "C01": {"models": ["pipeline"], "drivers": ["small", "adversarial", "char-classes", "front:hist", "fallbacks"], "thorough_drivers": ["icase-sweep"]},
     "C02": {"models": ["pipeline", "lang", "tlaps-lang"], "drivers": ["small-default", "near-miss", "char-classes"]},
-    "C03": {"drivers": ["classes"], "models": ["class"]},
+    "C03": {"drivers": ["classes", "fallbacks"], "models": ["class"]},
     "C04": {"drivers": ["icase-words", "icase-sweep"], "models": ["fold"]},
-    "C05": {"drivers": ["small-rep", "repeats"], "models": ["rep", "repconv"]},
-    "C06": {"drivers": ["presentation", "char-classes", "front:hist"], "models": ["lang", "verbose", "print"]},
+    "C05": {"drivers": ["small-rep", "repeats", "fallbacks"], "models": ["rep", "repconv"]},
+    "C06": {"drivers": ["presentation", "char-classes", "front:hist", "fallbacks"], "models": ["lang", "verbose", "print"]},
     "C07": {"drivers": ["lattice", "char-classes", "front:hist", "front:large"], "models": ["builder-rust", "apalache-builder"]},
-    "C08": {"models": ["pipeline"], "drivers": ["small-anchors", "anchors"]},
+    "C08": {"models": ["pipeline"], "drivers": ["small-anchors", "anchors", "fallbacks"]},
     "C09": {"drivers": ["class-sweep"], "models": ["class"]},
     "C10": {"drivers": ["orders", "front:hist"], "models": ["builder-rust"]},
-    "C11": {"drivers": ["escape-words", "front:escsweep"], "models": ["front-laws"]},
+    "C11": {"drivers": ["escape-words", "front:escsweep", "fallbacks"], "models": ["front-laws"]},
     "C12": {"drivers": ["front:cli"], "models": ["front-laws"]},
     "C13": {"drivers": ["thresholds", "front:hist"], "models": ["rep", "repconv"]},
     "C14": {"drivers": ["front:py"], "models": ["builder-py", "front-laws"]},
     "C15": {"drivers": ["color"], "models": ["front-laws", "print"]},
-    "C16": {"models": ["pipeline", "rep"], "drivers": ["small", "stages"]},
+    "C16": {"models": ["pipeline", "rep"], "drivers": ["small", "stages", "fallbacks"]},
     "C17": {"drivers": ["front:wasm"], "models": ["builder-wasm"]},
 }
 
